@@ -38,3 +38,32 @@ Proof. exact mpci_pow_int_pos_contains. Qed.
 Print Assumptions C15_pow_contains.
 Example C15_witness : mpci_mul ((fone, fone), (fone, fone)) ((fone, fone), (fone, fone)) 53 = ((fzero, fzero), (Mpf 0 1 1 1, Mpf 0 1 1 1)).  (* (1+i)^2 = 2i *)
 Proof. vm_compute. reflexivity. Qed.
+
+(* |z|, exp z, cos z, sin z on rectangles.  mpci_abs needs no input; for the others the values of mpf_exp / mpf_cos_sin /
+   mod_pi2 at the end points are inputs of the model under the monitored hypotheses `close` and `quad` (see Props/C14.v). *)
+From MP Require Import Proofs.IvOutward Proofs.IvTrig Proofs.IvCompose.
+Theorem C15_abs_contains : forall z prec a b, valid_civ z -> 0 < prec -> in_civ z a b ->
+  exists r, mpci_abs z prec = Ok r /\ in_iv r (sqrt (a * a + b * b)) /\ valid_iv r.
+Proof. exact mpci_abs_contains. Qed.
+Print Assumptions C15_abs_contains.
+Theorem C15_exp_contains : forall z va vb ca sa na cb sb nb prec a b, valid_civ z -> in_civ z a b -> 0 < prec ->
+  fincanon va -> fincanon vb -> fincanon ca -> fincanon sa -> fincanon cb -> fincanon sb ->
+  close (prec + 20 + 20) (rv va) (exp (rv (fst (fst z)))) -> close (prec + 20 + 20) (rv vb) (exp (rv (snd (fst z)))) ->
+  quad na (rv (fst (snd z))) -> quad nb (rv (snd (snd z))) ->
+  close (prec + 20 + 20) (rv ca) (cos (rv (fst (snd z)))) -> close (prec + 20 + 20) (rv sa) (sin (rv (fst (snd z)))) ->
+  close (prec + 20 + 20) (rv cb) (cos (rv (snd (snd z)))) -> close (prec + 20 + 20) (rv sb) (sin (rv (snd (snd z)))) ->
+  let w := mpci_exp_from z va vb (ca, sa, na) (cb, sb, nb) prec in
+  in_civ w (exp a * cos b) (exp a * sin b) /\ valid_civ w.
+Proof. exact mpci_exp_contains. Qed.
+Theorem C15_cos_sin_contains : forall z ca sa na cb sb nb va vb prec a b, valid_civ z -> in_civ z a b -> 0 < prec ->
+  fincanon ca -> fincanon sa -> fincanon cb -> fincanon sb -> fincanon va -> fincanon vb ->
+  quad na (rv (fst (fst z))) -> quad nb (rv (snd (fst z))) ->
+  close (prec + 10 + 20) (rv ca) (cos (rv (fst (fst z)))) -> close (prec + 10 + 20) (rv sa) (sin (rv (fst (fst z)))) ->
+  close (prec + 10 + 20) (rv cb) (cos (rv (snd (fst z)))) -> close (prec + 10 + 20) (rv sb) (sin (rv (snd (fst z)))) ->
+  close (prec + 10 + 20 + 20) (rv va) (exp (rv (fst (snd z)))) -> close (prec + 10 + 20 + 20) (rv vb) (exp (rv (snd (snd z)))) ->
+  (exists w, mpci_cos_from z (ca, sa, na) (cb, sb, nb) va vb prec = Ok w /\
+     in_civ w (cos a * cosh b) (- (sin a * sinh b)) /\ valid_civ w) /\
+  (exists w, mpci_sin_from z (ca, sa, na) (cb, sb, nb) va vb prec = Ok w /\
+     in_civ w (sin a * cosh b) (cos a * sinh b) /\ valid_civ w).
+Proof. exact mpci_cos_sin_contains. Qed.
+Print Assumptions C15_cos_sin_contains.
